@@ -43,6 +43,13 @@ type seqRun struct {
 	dead     bool // server panicked or hung
 	hist     map[string]int
 	opTimeout time.Duration
+	cur      [][]byte          // handle-typed arguments of the operation being issued
+	deadH    map[string]bool   // handles of objects known to be removed or overwritten
+	issued   map[string]bool   // every handle a creation ever returned
+	c09      bool              // compare full dumps around failing operations
+	lastDump string
+	lastFree [2]uint64
+	nOracle  int
 }
 
 func hx(b []byte) string {
@@ -54,7 +61,8 @@ func hx(b []byte) string {
 
 func newSeqRun(r *Rng, disksz uint64, unstable bool) *seqRun {
 	s := &seqRun{r: r, d: NewSparseDisk(disksz), unstable: unstable, objs: map[string]*objInfo{},
-		dirs: map[string]*dirInfo{}, hist: map[string]int{}, opTimeout: 20 * time.Second}
+		dirs: map[string]*dirInfo{}, hist: map[string]int{}, opTimeout: 20 * time.Second,
+		deadH: map[string]bool{}, issued: map[string]bool{}}
 	s.srv = nfs.MakeNfs(s.d)
 	s.srv.Unstable = unstable
 	root := fh.MkRootFh3().Data
@@ -146,9 +154,24 @@ func (s *seqRun) count(op string, st nfstypes.Nfsstat3) {
 		cls = "notsupp"
 	}
 	s.hist[op+":"+cls]++
+	if st == nfstypes.NFS3_OK {
+		for _, h := range s.cur {
+			if s.deadH[hx(h)] {
+				s.oracle("C08", "dead-handle-accepted:"+op, fmt.Sprintf("%s with the handle %s of a removed object returned NFS3_OK", op, hx(h)))
+			}
+		}
+	}
+	s.cur = nil
+	s.afterOp(op, st != nfstypes.NFS3_OK)
+}
+
+func (s *seqRun) oracle(prop, key, msg string) {
+	s.nOracle++
+	emit("# ORACLE %s %s %s", prop, key, msg)
 }
 
 func (s *seqRun) opGetattr(h []byte) {
+	s.cur = [][]byte{h}
 	desc := fmt.Sprintf("getattr %s", hx(h))
 	var rep nfstypes.GETATTR3res
 	if !s.guarded(desc, func() { rep = s.srv.NFSPROC3_GETATTR(nfstypes.GETATTR3args{Object: mkfh3(h)}) }) {
@@ -181,6 +204,7 @@ func (t timeHow) String() string {
 }
 
 func (s *seqRun) opSetattr(h []byte, size *uint64, at, mt timeHow) {
+	s.cur = [][]byte{h}
 	szs := "-"
 	var args nfstypes.SETATTR3args
 	args.Object = mkfh3(h)
@@ -221,6 +245,7 @@ func (s *seqRun) learn(dfh []byte, name string, ch []byte, kind uint32, size uin
 }
 
 func (s *seqRun) opLookup(dfh []byte, name string) {
+	s.cur = [][]byte{dfh}
 	desc := fmt.Sprintf("lookup %s %s", hx(dfh), hx([]byte(name)))
 	var rep nfstypes.LOOKUP3res
 	if !s.guarded(desc, func() {
@@ -239,6 +264,7 @@ func (s *seqRun) opLookup(dfh []byte, name string) {
 }
 
 func (s *seqRun) opAccess(h []byte) {
+	s.cur = [][]byte{h}
 	desc := fmt.Sprintf("access %s", hx(h))
 	var rep nfstypes.ACCESS3res
 	if !s.guarded(desc, func() { rep = s.srv.NFSPROC3_ACCESS(nfstypes.ACCESS3args{Object: mkfh3(h), Access: 63}) }) {
@@ -253,6 +279,7 @@ func (s *seqRun) opAccess(h []byte) {
 }
 
 func (s *seqRun) opReadlink(h []byte) {
+	s.cur = [][]byte{h}
 	desc := fmt.Sprintf("readlink %s", hx(h))
 	var rep nfstypes.READLINK3res
 	if !s.guarded(desc, func() { rep = s.srv.NFSPROC3_READLINK(nfstypes.READLINK3args{Symlink: mkfh3(h)}) }) {
@@ -268,6 +295,7 @@ func (s *seqRun) opReadlink(h []byte) {
 }
 
 func (s *seqRun) opRead(h []byte, off uint64, cnt uint32) {
+	s.cur = [][]byte{h}
 	desc := fmt.Sprintf("read %s %d %d", hx(h), off, cnt)
 	var rep nfstypes.READ3res
 	if !s.guarded(desc, func() {
@@ -288,6 +316,7 @@ func (s *seqRun) opRead(h []byte, off uint64, cnt uint32) {
 }
 
 func (s *seqRun) opWrite(h []byte, off uint64, cnt uint32, stable uint32, data []byte) {
+	s.cur = [][]byte{h}
 	desc := fmt.Sprintf("write %s %d %d %d %s", hx(h), off, cnt, stable, hx(data))
 	var rep nfstypes.WRITE3res
 	if !s.guarded(desc[:min(len(desc), 200)], func() {
@@ -324,6 +353,7 @@ func inumOf(h []byte) uint64 {
 
 // kind: "create" (mode given), "mkdir", "symlink" (target given)
 func (s *seqRun) opCreate(kind string, dfh []byte, name string, mode uint32, target []byte) {
+	s.cur = [][]byte{dfh}
 	var desc string
 	var status nfstypes.Nfsstat3
 	var obj nfstypes.Post_op_fh3
@@ -362,6 +392,10 @@ func (s *seqRun) opCreate(kind string, dfh []byte, name string, mode uint32, tar
 			return
 		}
 		emit("%s ; %d %d => 0 %s %s", desc, inumOf(obj.Handle.Data), slot, hx(obj.Handle.Data), attrShort(attr))
+		if s.issued[hx(obj.Handle.Data)] {
+			s.oracle("C08", "handle-issued-twice", fmt.Sprintf("%s returned the handle %s, which an earlier creation had returned for another object", kind, hx(obj.Handle.Data)))
+		}
+		s.issued[hx(obj.Handle.Data)] = true
 		s.learn(dfh, name, obj.Handle.Data, uint32(attr.Ftype), uint64(attr.Size))
 	} else {
 		emit("%s => %d", desc, status)
@@ -406,10 +440,12 @@ func (s *seqRun) forget(dfh []byte, name string) {
 		delete(s.objs, hx(ch))
 		delete(s.dirs, hx(ch))
 		s.stale = append(s.stale, ch)
+		s.deadH[hx(ch)] = true
 	}
 }
 
 func (s *seqRun) opRemove(proc string, dfh []byte, name string) {
+	s.cur = [][]byte{dfh}
 	desc := fmt.Sprintf("%s %s %s", proc, hx(dfh), hx([]byte(name)))
 	var st nfstypes.Nfsstat3
 	obj := nfstypes.Diropargs3{Dir: mkfh3(dfh), Name: nfstypes.Filename3(name)}
@@ -430,6 +466,7 @@ func (s *seqRun) opRemove(proc string, dfh []byte, name string) {
 }
 
 func (s *seqRun) opRename(ffh []byte, fname string, tfh []byte, tname string) {
+	s.cur = [][]byte{ffh, tfh}
 	desc := fmt.Sprintf("rename %s %s %s %s", hx(ffh), hx([]byte(fname)), hx(tfh), hx([]byte(tname)))
 	var st nfstypes.Nfsstat3
 	// was it a no-op rename (same object)? then no slot is used
@@ -457,6 +494,7 @@ func (s *seqRun) opRename(ffh []byte, fname string, tfh []byte, tname string) {
 						delete(s.objs, hx(old))
 						delete(s.dirs, hx(old))
 						s.stale = append(s.stale, old)
+						s.deadH[hx(old)] = true
 					}
 					delete(fd.names, fname)
 					td.names[tname] = ch
@@ -469,6 +507,7 @@ func (s *seqRun) opRename(ffh []byte, fname string, tfh []byte, tname string) {
 }
 
 func (s *seqRun) opReaddir(h []byte, cookie uint64, count uint32) {
+	s.cur = [][]byte{h}
 	desc := fmt.Sprintf("readdir %s %d %d", hx(h), cookie, count)
 	var rep nfstypes.READDIR3res
 	if !s.guarded(desc, func() {
@@ -497,6 +536,7 @@ func (s *seqRun) opReaddir(h []byte, cookie uint64, count uint32) {
 }
 
 func (s *seqRun) opReaddirplus(h []byte, cookie uint64, dircount, maxcount uint32) {
+	s.cur = [][]byte{h}
 	desc := fmt.Sprintf("readdirplus %s %d %d %d", hx(h), cookie, dircount, maxcount)
 	var rep nfstypes.READDIRPLUS3res
 	if !s.guarded(desc, func() {
@@ -537,6 +577,7 @@ func b01(b bool) int {
 }
 
 func (s *seqRun) opFsinfo(h []byte) {
+	s.cur = [][]byte{h}
 	desc := fmt.Sprintf("fsinfo %s", hx(h))
 	var rep nfstypes.FSINFO3res
 	if !s.guarded(desc, func() { rep = s.srv.NFSPROC3_FSINFO(nfstypes.FSINFO3args{Fsroot: mkfh3(h)}) }) {
@@ -552,6 +593,7 @@ func (s *seqRun) opFsinfo(h []byte) {
 }
 
 func (s *seqRun) opPathconf(h []byte) {
+	s.cur = [][]byte{h}
 	desc := fmt.Sprintf("pathconf %s", hx(h))
 	var rep nfstypes.PATHCONF3res
 	if !s.guarded(desc, func() { rep = s.srv.NFSPROC3_PATHCONF(nfstypes.PATHCONF3args{Object: mkfh3(h)}) }) {
@@ -567,6 +609,7 @@ func (s *seqRun) opPathconf(h []byte) {
 }
 
 func (s *seqRun) opCommit(h []byte, off uint64, cnt uint32) {
+	s.cur = [][]byte{h}
 	desc := fmt.Sprintf("commit %s %d %d", hx(h), off, cnt)
 	var rep nfstypes.COMMIT3res
 	if !s.guarded(desc, func() {
@@ -960,6 +1003,8 @@ func cmdSeq(fs *flag.FlagSet, args []string) {
 	disksz := fs.Uint64("disk", 100000, "disk size in blocks")
 	big := fs.Bool("big", false, "allow large transfers")
 	scen := fs.Bool("scenarios", true, "run the directed scenarios first")
+	c09 := fs.Bool("c09", false, "compare full dumps and free counts around every failing operation")
+	limits := fs.Bool("limits", true, "probe the announced limits")
 	fs.Parse(args)
 	root := NewRng(*seed)
 	total := map[string]int{}
@@ -972,7 +1017,9 @@ func cmdSeq(fs *flag.FlagSet, args []string) {
 		for _, sc := range scenarios {
 			s := newSeqRun(root.Fork(), *disksz, true)
 			emit("# scenario %s", sc.name)
+			s.c09 = *c09
 			sc.run(s)
+			s.scanAll()
 			s.close()
 			merge(s)
 		}
@@ -981,9 +1028,18 @@ func cmdSeq(fs *flag.FlagSet, args []string) {
 		unstable := i%3 != 2
 		s := newSeqRun(root.Fork(), *disksz, unstable)
 		emit("# sequence %d unstable=%v", i, unstable)
+		s.c09 = *c09
 		for j := 0; j < *nops && !s.dead; j++ {
 			s.randomOp(*big)
 		}
+		s.scanAll()
+		s.close()
+		merge(s)
+	}
+	if *limits {
+		s := newSeqRun(root.Fork(), *disksz, true)
+		emit("# limits probe")
+		s.limitsProbe()
 		s.close()
 		merge(s)
 	}
@@ -997,4 +1053,21 @@ func cmdSeq(fs *flag.FlagSet, args []string) {
 		parts = append(parts, fmt.Sprintf("%s=%d", k, total[k]))
 	}
 	emit("# HIST %s", strings.Join(parts, " "))
+}
+
+// scanAll runs the enumeration oracle on every directory the generator knows.
+func (s *seqRun) scanAll() {
+	var ks []string
+	for k := range s.dirs {
+		ks = append(ks, k)
+	}
+	sort.Strings(ks)
+	for _, k := range ks {
+		if s.dead {
+			return
+		}
+		if o, ok := s.objs[k]; ok {
+			s.dirScan(o.fh)
+		}
+	}
 }
